@@ -124,6 +124,12 @@ let () =
                let consumed = List.length all - List.length rest in
                Buffer.contents b ^ Printf.sprintf " %d %s" consumed (dec_of_n (crc32c_spec N0 (firstn consumed all)))
              | None -> Buffer.contents b)
+          | "blockhash" ->
+            (* blockhash <kind> <seedhex> <prevkind|none> <prevseedhex|-> <rehash 0|1> <hashsize> <hex> : the stored hash of a block *)
+            let kind s = if s = "murmur3" then Murmur3 else if s = "spooky2" then Spooky2 else failwith "kind" in
+            let prev = if toks.(3) = "none" then None else Some (kind toks.(3), bytes_of_hex toks.(4)) in
+            let c = { hc_kind = kind toks.(1); hc_seed = bytes_of_hex toks.(2); hc_prev = prev; hc_size = nat_of_int (int_of_string toks.(6)) } in
+            "ok " ^ hex_of_bytes (block_hash c (toks.(5) = "1") (bytes_of_hex toks.(7)))
           | "bsize" ->
             "ok " ^ dec_of_n (file_block_size (n_of_dec toks.(1)) (n_of_dec toks.(2)) (n_of_dec toks.(3)) (n_of_dec toks.(4)))
           | _ -> "unknown"
